@@ -33,7 +33,7 @@ def skeletons(tier):
         out.append({"id": f"{n}-{anno or 'all'}-z{int(z)}", "struct": n,
                     "params": {"anno": anno, "inst": 0 if anno else None, "step": step, "zero": z}})
     if tier == "quick":
-        for n in ("I", "A", "B", "C", "D", "E", "H"):
+        for n in ("I", "A", "B", "C", "D", "E", "H", "Q", "T", "K"):
             add(n, "", False)
         for n in ("A", "B", "E"):
             add(n, "ProfilerStep", True)
